@@ -1989,6 +1989,9 @@ func (w *Writer) tryConstEvalBinary(b ir.ExprBinary) (string, bool) {
 	if !w.involvesExprConstant(b.Left) && !w.involvesExprConstant(b.Right) {
 		return "", false
 	}
+	if !constEvalSupportsBinary(b.Op) {
+		return "", false
+	}
 	leftVal, leftOk := w.exprConstValue(b.Left)
 	rightVal, rightOk := w.exprConstValue(b.Right)
 	if !leftOk || !rightOk {
@@ -2020,6 +2023,16 @@ func (w *Writer) tryConstEvalUnary(u ir.ExprUnary) (string, bool) {
 		return w.formatConstResult(u.Expr, -val), true
 	}
 	return "", false
+}
+
+// constEvalSupportsBinary reports whether ir.EvalBinaryFloat implements op; for every
+// other operator it returns 0, which must not be written as the value of the expression.
+func constEvalSupportsBinary(op ir.BinaryOperator) bool {
+	switch op {
+	case ir.BinaryAdd, ir.BinarySubtract, ir.BinaryMultiply, ir.BinaryDivide:
+		return true
+	}
+	return false
 }
 
 // involvesExprConstant checks if an expression references an ExprConstant (named constant).
@@ -2060,6 +2073,9 @@ func (w *Writer) exprConstValue(handle ir.ExpressionHandle) (float64, bool) {
 			}
 		}
 	case ir.ExprBinary:
+		if !constEvalSupportsBinary(k.Op) {
+			return 0, false
+		}
 		left, leftOk := w.exprConstValue(k.Left)
 		right, rightOk := w.exprConstValue(k.Right)
 		if leftOk && rightOk {
